@@ -225,7 +225,7 @@ class OText:
 
 
 DROP_ATTR = re.compile(
-    r"^\s*#\[(inline(\(\w+\))?|doc\(hidden\)|cfg_attr\(.*|derive\(.*\)|must_use|allow\(.*\)|non_exhaustive|error\(.*\)|br\(.*\)|repr\(.*\))\]\s*$")
+    r"^\s*#\[(inline(\(\w+\))?|doc\(hidden\)|cfg_attr\(.*|derive\(.*\)|must_use|allow\(.*\)|non_exhaustive|error\(.*\)|br\(.*\))\]\s*$")
 
 
 def strip_attrs(ot, log):
